@@ -302,6 +302,39 @@ class TrainerProp(core.Prop):
             def get_done(self, agent_id, **kw): return False
             def get_all_done(self, **kw): return False
             def get_info(self, agent_id, **kw): return {}
+        # an entity that is not an agent, listed BEFORE an agent whose policy does not fit: every agent is checked, the
+        # walk does not end at the first non-agent
+        from abmarl.sim import PrincipleAgent
+
+        class _WallFirst(_TwoSpaces):
+            def __init__(self):
+                self.agents = {"wall": PrincipleAgent(id="wall"), "fit": Agent(id="fit", **good),
+                               "odd": Agent(id="odd", **bads[0])}
+                self.finalize()
+        try:
+            PlainMulti(sim=AllStepManager(_WallFirst()), policies={"p": CountingPolicy(0, [], **good)},
+                       policy_mapping_fn=lambda a: "p")
+            rep.runtime_failure("trainer constructor accepted a policy whose spaces differ from those of an agent listed "
+                                "after a non-learning entity", None)
+        except AssertionError:
+            pass
+        # the debug trainer run WITHOUT policies builds one random policy per agent - over that agent's own spaces
+        try:
+            from abmarl.trainers import DebugTrainer
+            import shutil
+            import tempfile
+            scratch = tempfile.mkdtemp(prefix="verif_c16_")
+            try:
+                dt = DebugTrainer(sim=AllStepManager(_TwoSpaces(True)), output_dir=scratch)
+                for aid, ag in dt.sim.agents.items():
+                    pol = dt.policies[dt.policy_mapping_fn(aid)]
+                    if not (pol.observation_space == ag.observation_space and pol.action_space == ag.action_space):
+                        rep.runtime_failure("DebugTrainer without policies: the policy built for an agent does not have "
+                                            "that agent's spaces", {"agent": aid})
+            finally:
+                shutil.rmtree(scratch, ignore_errors=True)
+        except Exception as ex:  # noqa: BLE001
+            rep.runtime_failure("DebugTrainer without policies could not be built: %s: %s" % (type(ex).__name__, ex), None)
         for first_fits in (True, False):
             try:
                 PlainMulti(sim=AllStepManager(_TwoSpaces(first_fits)), policies={"p": CountingPolicy(0, [], **good)},
